@@ -5,7 +5,7 @@ from spec import c20 as S
 
 AZ = [(0x41, 0x5A), (0x61, 0x7A)]
 BOUNDS = {
-    "quick": "protocol laws: every url str of length 0..5 x protocol in {http, https:, ftp://, wss, any 1-2 letter alphabetic protocol}; "
+    "quick": "protocol laws: every url str of length 0..5 x protocol in {http, https:, ftp://, wss, any 1-2 letter alphabetic protocol}; urls 'http://' + hole + 'http://' + hole (the protocol repeated further on), holes of length <= 2 / <= 1; "
              "builders: 3 bases x 4 path shapes x args of <= 2 items with every key/value str of length <= 2 (or None / False / True / 7 / 0) x fragment of length <= 2; "
              "add/get_query_argument: 4 urls x name, value of length <= 2; pathsplit: every str of length <= 5",
     "thorough": "protocol laws: url length 0..7; builders: keys/values/fragment of length <= 3; add/get: length <= 3; pathsplit: length <= 7",
@@ -28,6 +28,15 @@ def proto_laws(st, n, proto, np_=0):
     run_prop(st, "ensure_keeps_rest", S.ensure_keeps_rest, u, p)
     run_prop(st, "force_keeps_rest", S.force_keeps_rest, u, p)
     run_prop(st, "force_is_ensure_of_stripped", S.force_is_ensure_of_stripped, u, p)
+
+
+def proto_laws_repeated(st, n, m, proto):
+    """the url carries its own protocol a second time further on (an embedded url): only the leading one is the protocol"""
+    u = cat("http://", sym_str(st, "u", n), "http://", sym_str(st, "v", m))
+    for label, prop in (("ensure_idempotent", S.ensure_idempotent), ("force_idempotent", S.force_idempotent),
+                        ("force_starts_with_protocol", S.force_starts_with_protocol), ("ensure_keeps_rest", S.ensure_keeps_rest),
+                        ("force_keeps_rest", S.force_keeps_rest), ("force_is_ensure_of_stripped", S.force_is_ensure_of_stripped)):
+        run_prop(st, label, prop, u, proto)
 
 
 BASES = ["http://x.fr", "http://x.fr/", "http://x.fr/a//"]
@@ -102,6 +111,9 @@ def items(tier):
                         "name": "proto sym%d n=%d" % (np_, n), "weight": 4 ** n * 2})
     kk = 2 if q else 3
     nv = len(SPECIALS)
+    for pr in ("https", "ftp://"):
+        for n, m in ((0, 0), (1, 0), (1, 1), (2, 1)) if q else ((0, 0), (1, 0), (1, 1), (2, 1), (2, 2), (3, 1)):
+            out.append({"fn": "proto_laws_repeated", "params": {"n": n, "m": m, "proto": pr}, "name": "proto repeated %s %d+%d" % (pr, n, m), "weight": 4 ** (n + m)})
     for base in range(len(BASES)):
         for path in range(len(PATHS)):
             if q and (base + path) % 2:
